@@ -390,6 +390,23 @@ def ob_native():
                     a.pop("original_filename"), b.pop("original_filename")
                     if a != b:
                         return {"save(load(save)) differs from save (json)": True}
+            # what was saved through a name is what loading that name returns: an OLDER file of the same base name in another format
+            # (results once exported as .json next to the default .pickle) does not shadow it
+            s_old = SimulationResults()
+            s_old.set_parameters(p)
+            ro = Result("other", Result.SUMTYPE)
+            ro.update(123)
+            s_old.add_result(ro)
+            for first_ext, second_ext in ((".json", ""), (".pickle", ".json"), ("", ".json")):
+                base = os.path.join(tmp, "sib%s%s" % (first_ext.strip(".") or "none", second_ext.strip(".") or "none"))
+                s_old.save_to_file(base + first_ext)
+                fn_new = s.save_to_file(base + second_ext)
+                for name in ([base + second_ext] if second_ext else [base, fn_new]):
+                    got = SimulationResults.load_from_file(name)
+                    if not (got == s):
+                        return {"history": "save A to %r, save B to %r, load %r" % (os.path.basename(base + first_ext), os.path.basename(base + second_ext),
+                                                                                  os.path.basename(name)),
+                                "loaded object equals": "A (the older sibling)" if got == s_old else "neither"}
         finally:
             shutil.rmtree(tmp, ignore_errors=True)
         return None
